@@ -27,7 +27,7 @@ ASSUMPTIONS = ["afdo/redo/godo actions are not part of the compared trace (the s
 PROBES = ["retained_two_plus", "forced_reentry", "other_tree", "descendant_dest", "ancestor_dest", "failing_precondition", "end_with_depth_3",
           "transition_from_nonprimary_branch", "two_conditions_true_in_one_cycle"]
 BOUNDS = dict(quick=dict(boxes=10, depth=4, cycles=12), thorough=dict(boxes=12, depth=4, cycles=24))
-TIERS = dict(quick=dict(cases=12000, wall=40.0), thorough=dict(cases=1000000, wall=420.0))
+TIERS = dict(quick=dict(cases=24000, wall=60.0), thorough=dict(cases=1000000, wall=420.0))
 SIM_TIME_UNIT = "cycles"
 CTX = ("endo", "exdo", "rendo", "rexdo")
 
